@@ -9,6 +9,7 @@ import CorgiModel.Ops
 import CorgiSpec.Ops
 import CorgiProofs.Conv
 import CorgiProofs.Instances
+import CorgiProofs.Composite
 
 set_option linter.unusedSectionVars false
 
@@ -18,7 +19,7 @@ variable {S : Type} [Add S] [Mul S] [Neg S] [Sub S] [ScalarOps S]
 /-- fewer than three dimensions on either side is refused -/
 theorem C06_refuse_rank (img flt : Tensor S) (sr sc : Nat)
     (h : img.dims.length < 3 ∨ flt.dims.length < 3) : ∃ p, conv img flt sr sc = .error p := by
-  unfold conv
+  unfold conv convParams
   by_cases h0 : img.dims.length = 0
   · exact ⟨.underflow, by simp [h0, bind, Except.bind, throw, throwThe, MonadExceptOf.throw]⟩
   · have : (decide (img.dims.length ≥ 3) && decide (flt.dims.length ≥ 3)) = false := by
@@ -29,7 +30,7 @@ theorem C06_refuse_rank (img flt : Tensor S) (sr sc : Nat)
 theorem C06_refuse_size (l : List Nat) (depth rows cols : Nat) (fl : List Nat) (fd fr fc : Nat) (iv fv : List S)
     (sr sc : Nat) (h : rows < fr ∨ cols < fc ∨ sr = 0 ∨ sc = 0) :
     ∃ p, conv (⟨l ++ [depth, rows, cols], iv⟩ : Tensor S) ⟨fl ++ [fd, fr, fc], fv⟩ sr sc = .error p := by
-  unfold conv
+  unfold conv convParams
   have e1 : (l ++ [depth, rows, cols]).length ≠ 0 := by simp
   have d3 : dimFromEnd (l ++ [depth, rows, cols]) 3 = .ok depth := by simp [dimFromEnd, getR, pure, Except.pure]
   have d2 : dimFromEnd (l ++ [depth, rows, cols]) 2 = .ok rows := by simp [dimFromEnd, getR, pure, Except.pure]
@@ -82,6 +83,27 @@ example : (⟨[2] ++ [2, 4, 5], List.replicate 80 (1 : Int)⟩ : Tensor Int).WF 
     (⟨[3, 2, 2, 3], List.replicate 36 (1 : Int)⟩ : Tensor Int).WF ∧ 2 ≤ 4 ∧ 3 ≤ 5 := by
   refine ⟨⟨by decide, by decide⟩, ⟨by decide, by decide⟩, by decide, by decide⟩
 
+
+/-- **The executed path.**  The `conv` command (and `Conv::forward`) runs a pipeline of four recorded
+    nodes — im2col, a view of the filters, the matrix product, the per-image transposition.  Whenever
+    that pipeline returns a handle, the array it denotes is the sliding-window tensor: the theorem above
+    transfers to what the interpreter (and, through the correspondence check, the code) executes. -/
+theorem C06_conv_executed [AddLaws S] [BEq S] (σ σ' : State S) (img flt r : Handle) (B : List Nat) (D R C K fr fc sr sc : Nat)
+    (hdi : img.dims = B ++ [D, R, C]) (hdf : flt.dims = [K, D, fr, fc])
+    (hwi : (σ.tensorOf img).WF) (hwf : (σ.tensorOf flt).WF) (hbuf : flt.buf < σ.bufs.size)
+    (hfr : fr ≤ R) (hfc : fc ≤ C) (hsr : 1 ≤ sr) (hsc : 1 ≤ sc)
+    (hok : hConv σ img flt sr sc = .ok (σ', r)) :
+    σ'.tensorOf r = specConv (σ.tensorOf img) (σ.tensorOf flt) sr sc := by
+  have h1 := (sound_hConv σ img flt sr sc hbuf σ' r hok).1
+  have ei : σ.tensorOf img = ⟨B ++ [D, R, C], (σ.tensorOf img).vals⟩ := by simp [State.tensorOf, hdi]
+  have ef : σ.tensorOf flt = ⟨[K, D, fr, fc], (σ.tensorOf flt).vals⟩ := by simp [State.tensorOf, hdf]
+  rw [ei] at hwi
+  rw [ef] at hwf
+  rw [ei, ef] at h1 ⊢
+  rw [conv_spec B D R C K fr fc sr sc _ _ hwi hwf hfr hfc hsr hsc] at h1
+  simp only [Except.ok.injEq] at h1
+  exact h1.symm
+
 end Corgi
 
 #print axioms Corgi.C06_refuse_rank
@@ -89,3 +111,4 @@ end Corgi
 #print axioms Corgi.C06_spec_dims
 #print axioms Corgi.C06_conv
 #print axioms Corgi.C06_unroll
+#print axioms Corgi.C06_conv_executed
